@@ -325,3 +325,44 @@ package scanner
 //@ pred isKeywordWord(w string) = w == "JSIGHT" || w == "INFO" || w == "Title" || w == "Version" || w == "Description" || w == "SERVER" || w == "BaseUrl" || w == "URL"
 //@     || w == "GET" || w == "POST" || w == "PUT" || w == "PATCH" || w == "DELETE" || w == "Body" || w == "Request" || w == "Path" || w == "Headers" || w == "Query"
 //@     || w == "TYPE" || w == "ENUM" || w == "MACRO" || w == "PASTE" || w == "INCLUDE" || w == "Protocol" || w == "Method" || w == "Params" || w == "Result" || w == "TAG" || w == "Tags" || w == "###"
+
+// ---------------------------------------------------------------- lexeme accessors
+
+//@ pred LexOK(l Lexeme) = l.file != nil && l.begin <= l.end + 1 && l.end < len(l.file.content)
+//@ func (Lexeme).Value
+//@   tag C01 C14
+//@   pure
+//@   requires lex.file != nil && lex.begin <= lex.end + 1 && lex.end < len(lex.file.content)
+//@   ensures len(ret) == lex.end + 1 - lex.begin
+//@ func (Lexeme).Begin
+//@   inline
+//@ func (Lexeme).End
+//@   inline
+//@ func (Lexeme).File
+//@   inline
+
+// ---------------------------------------------------------------- the stack of including scanners (C02, C08)
+
+//@ func (*Stack).Empty
+//@   inline
+//@ func (*Stack).ToDirectiveIncludeTracer
+//@   tag C01 C02
+//@   requires StackInv(s)
+//@   modifies s.includeTracers, mapof(s.includeTracers)
+//@   ensures !isnil(ret) && StackInv(s)
+
+//@ pred StackInv(s *Stack) = s != nil && len(s.hashes) == len(s.stack)
+//@     && (forall k uint64 :: has(s.includeTracers, k) ==> !isnil(s.includeTracers[k]))
+//@     && (forall i :: 0 <= i && i < len(s.stack) ==> s.stack[i].scanner != nil && s.stack[i].scanner.file != nil && s.stack[i].at <= len(s.stack[i].scanner.file.content))
+
+//@ func newDirectiveIncludeTracer
+//@   tag C01 C02
+//@   modifies nothing
+//@   requires forall i :: 0 <= i && i < len(ii) ==> ii[i].scanner != nil
+//@   ensures len(ret.stack) == len(ii)
+//@   ensures forall k :: 0 <= k && k < len(ii) ==> ret.stack[k].file == ii[k].scanner.file && ret.stack[k].at == ii[k].at
+//@   loop 1 invariant 0 - 1 <= rangeindex && rangeindex < rangelen || rangelen == 0 && rangeindex == 0 - 1
+//@   loop 1 invariant rangelen == len(ii) && len(d.stack) == rangeindex + 1
+//@   loop 1 invariant forall k :: 0 <= k && k <= rangeindex ==> d.stack[k].file == ii[k].scanner.file && d.stack[k].at == ii[k].at
+//@   loop 1 decreases rangelen - rangeindex
+//@   loop 1 frame nothing
